@@ -140,6 +140,21 @@ func (e *env) recoverAndCheck(batches []chainx.Batch, i int, maxHeight uint32, w
 			return fmt.Sprintf("after recovering at %d and adding block %d the state differs", h, k+1), d
 		}
 	}
+	// the recovered node must stay resumable: stop it gracefully and start it once more
+	if int(h) < len(blocks) {
+		m, err := n.Reopen()
+		n = m
+		if err != nil {
+			return fmt.Sprintf("node recovered at height %d and fed the remaining blocks cannot be restarted again: %v", h, err), nil
+		}
+		got, err := n.Observe(e.sc.World.MaxID, e.sc.World.Hashes())
+		if err != nil {
+			return "restarted node cannot answer: " + err.Error(), nil
+		}
+		if d := obs[len(blocks)-1].Diff(got); len(d) != 0 {
+			return fmt.Sprintf("after recovering at %d, adding the remaining blocks and a second restart the state differs", h), d
+		}
+	}
 	return "", nil
 }
 
@@ -386,6 +401,9 @@ func TestCheck(t *testing.T) {
 	thorT := append(append([]string{}, quickT...), "empty", "vote2+transfer", "policy-fee+tx", "caught-callee", "unregister1", "deploy-uc", "notary-deposit")
 	names := vk.Pick(r, quickT, thorT)
 	depth := 2
+	if os.Getenv("C02_PAGES") != "" {
+		depth = 1
+	}
 	type plan struct {
 		e    *env
 		kind string
@@ -401,6 +419,23 @@ func TestCheck(t *testing.T) {
 		return &env{r: r, sc: sc, cfg: cfg, gc: gc, hs: hs}
 	}
 	fams := chainx.Families()
+	if os.Getenv("C02_PAGES") != "" {
+		// Built with the header-hash page size scaled from 2000 to 4 (overlay hdrbatch4), so that a
+		// bounded history crosses page boundaries: long preamble, short alphabet, a single flush at
+		// every boundary (the node dies right after it), recovery, remaining blocks, second restart.
+		names = []string{"empty", "vote1"}
+		depth = 1
+		fams = []chainx.Family{fams[0], fams[1]}
+		if r.Thorough() {
+			fams = chainx.Families()
+		}
+		for _, f := range fams {
+			pad := vk.Pick(r, 10, 14)
+			e := mkEnv(f, pad, nil, false)
+			plans = append(plans, plan{e, "pages"})
+		}
+		fams = nil
+	}
 	prune := func(c *config.Blockchain) {
 		c.Ledger.RemoveUntraceableBlocks = true
 		c.Ledger.GarbageCollectionPeriod = 1
@@ -451,6 +486,14 @@ func TestCheck(t *testing.T) {
 			}
 		case "gc":
 			masks = []uint64{all, 0xAAAAAAAAAAAAAAAA&all | 1<<uint(total-1)}
+		case "pages":
+			masks = []uint64{all, 0}
+			for k := 0; k < total; k++ {
+				masks = append(masks, 1<<uint(k)) // a single flush at each boundary
+			}
+			for k := 0; k+1 < total; k++ {
+				masks = append(masks, 3<<uint(k)) // two consecutive ones
+			}
 		}
 		for _, h := range p.e.hs {
 			switch p.kind {
@@ -487,7 +530,11 @@ func TestCheck(t *testing.T) {
 		if j.p.kind == "reset" {
 			c, rec = j.p.e.runReset(j.h, j.to, j.gcFirst)
 		} else {
-			c, rec = j.p.e.runPersist(j.h, j.mask, j.p.kind, j.inblock)
+			kind := j.p.kind
+			if kind == "pages" {
+				kind = "persist-pages"
+			}
+			c, rec = j.p.e.runPersist(j.h, j.mask, kind, j.inblock)
 		}
 		crashes.Add(c)
 		runs.Inc()
